@@ -261,6 +261,23 @@ def _get_operator(grid, backend, op, opts, cfg):
     return grid.make_operator_no_bc(op, backend=backend, **opts), op
 
 
+def _one_sided_correction(op, comps, nvar, a, cfg):
+    """second-derivative part of the one-sided difference quotient along axis a (Cartesian first-order operators)"""
+    zero = P.zero(nvar)
+    dd = lambda p: p.d(a).d(a)  # noqa: E731
+    if op == "AXIS":
+        return dd(comps) if a == cfg["axis"] else None
+    if op == "gradient":
+        return [dd(comps) if b == a else zero for b in range(nvar)]
+    if op == "divergence":
+        return dd(comps[a])
+    if op == "vector_gradient":
+        return [[dd(comps[al]) if be == a else zero for be in range(nvar)] for al in range(nvar)]
+    if op == "tensor_divergence":
+        return [dd(comps[al][a]) for al in range(nvar)]
+    return None
+
+
 def scenario_consistency(env, cfg):
     spec = cfg["grid"]
     kind = spec["kind"]
@@ -306,6 +323,18 @@ def scenario_consistency(env, cfg):
                 b = C_ERR * O.total(hs) + 1e-9
             claims.append(abs(out[idx] - exact[idx]) <= b)
         env.prove(f"consistent:{label}", O.land(*claims))
+        if one_sided and kind == "cart":
+            # the documented one-sided stencil, exactly: (u[i+1]-u[i])/h = u' + (h/2) u'' on polynomials of degree <= 2
+            # (a first-order bound alone would also be met by the central stencil)
+            sign = 1 if (opts.get("method") == "forward" or (op == "AXIS" and cfg["variant"] == "_forward")) else -1
+            expect = X.as_dtype(exact, env.sym)
+            for a in range(nvar):
+                corr_p = _one_sided_correction(op, comps, nvar, a, cfg)
+                if corr_p is None:
+                    continue
+                corr = X.eval_field(corr_p, rank_out, pos, shape, ncomp)
+                expect = expect + X.as_dtype(corr, env.sym) * (sign * hs[a] / 2)
+            env.close(f"one-sided-stencil-exact:{label}", list(out.flat), list(expect.flat), scale=4096)
         if n < 2:
             env.observe(f"out:{label}", out)
         n += 1
